@@ -79,6 +79,16 @@ instance {σ τ : Type} [Codec σ] [Codec τ] : Codec (σ × τ) where
     | _ => throw "expected pair"
   enc p := Json.arr #[enc p.1, enc p.2]
 
+instance {σ τ : Type} [Codec σ] [Codec τ] : Codec (Sum σ τ) where
+  dec j := match j.getObjVal? "inl" with
+    | .ok v => do let x ← dec v; pure (Sum.inl x)
+    | .error _ => match j.getObjVal? "inr" with
+      | .ok v => do let x ← dec v; pure (Sum.inr x)
+      | .error e => throw e
+  enc s := match s with
+    | Sum.inl x => Json.mkObj [("inl", enc x)]
+    | Sum.inr x => Json.mkObj [("inr", enc x)]
+
 def arrN (j : Json) (n : Nat) : Except String (Array Json) :=
   match j with
   | Json.arr a => if a.size = n then pure a else throw s!"expected {n} items, got {a.size}"
@@ -107,12 +117,16 @@ instance : Codec (PlaneS ℚ) where
   enc v := Json.arr #[enc v.n, enc v.o, enc v.k, enc v.x, enc v.y]
 
 instance : Codec (Arc2S ℚ) where
-  dec j := do let a ← arrN j 4; pure ⟨← dec a[0]!, ← dec a[1]!, ← dec a[2]!, ← dec a[3]!⟩
-  enc v := Json.arr #[enc v.c, enc v.r, enc v.a1, enc v.a2]
+  dec j := do
+    let a ← arrN j 8
+    pure ⟨← dec a[0]!, ← dec a[1]!, ← dec a[2]!, ← dec a[3]!, ← dec a[4]!, ← dec a[5]!,
+      ← dec a[6]!, ← dec a[7]!⟩
+  enc v := Json.arr #[enc v.c, enc v.r, enc v.a1, enc v.a2, enc v.cos_a1, enc v.sin_a1,
+    enc v.cos_a2, enc v.sin_a2]
 
 instance : Codec (Arc3S ℚ) where
-  dec j := do let a ← arrN j 4; pure ⟨← dec a[0]!, ← dec a[1]!, ← dec a[2]!, ← dec a[3]!⟩
-  enc v := Json.arr #[enc v.plane, enc v.r, enc v.a1, enc v.a2]
+  dec j := do let a ← arrN j 2; pure ⟨← dec a[0]!, ← dec a[1]!⟩
+  enc v := Json.arr #[enc v.plane, enc v.arc2d]
 
 instance : Codec (SphereS ℚ) where
   dec j := do let a ← arrN j 2; pure ⟨← dec a[0]!, ← dec a[1]!⟩
